@@ -534,6 +534,96 @@ func ruleDRMGate(c *eng.Ctx) {
 			}
 		}
 	}
+	if !(rightsOK && parseErrOK && encOK) {
+		// indicator objects: the refusal is returned where `selector(member name).indicates(member)` answered yes;
+		// the selector hands out one implementation per member name and each implementation is read on its own
+		for _, r := range eng.Returns(drm) {
+			if !isDRMErr(eng.ReturnValues(r)[0]) {
+				continue
+			}
+			var inv *ssa.Call
+			eng.GuardedBy(drm, r.Block(), func(f eng.Fact) bool {
+				if call, ok := f.Cond.(*ssa.Call); ok && f.Pos && call.Call.IsInvoke() {
+					inv = call
+				}
+				return false
+			})
+			if inv == nil {
+				continue
+			}
+			selCall, ok := inv.Call.Value.(*ssa.Call)
+			if !ok {
+				continue
+			}
+			sel := eng.StaticCallee(selCall)
+			if sel == nil || !eng.InModule(sel) || sel.Blocks == nil {
+				continue
+			}
+			implFor := func(name string) *ssa.Function {
+				for _, sr := range eng.Returns(sel) {
+					mi, ok := sr.Results[0].(*ssa.MakeInterface)
+					if !ok || !eng.GuardedBy(sel, sr.Block(), nameEq(name)) {
+						continue
+					}
+					for _, g := range c.P.Callees(inv) {
+						if g.Signature.Recv() != nil && types.Identical(g.Signature.Recv().Type(), mi.X.Type()) {
+							return g
+						}
+					}
+				}
+				return nil
+			}
+			if g := implFor("META-INF/rights.xml"); g != nil && g.Blocks != nil {
+				all := true
+				for _, gr := range eng.Returns(g) {
+					k, ok := gr.Results[0].(*ssa.Const)
+					if !ok || k.Value == nil || k.Value.ExactString() != "true" {
+						all = false
+					}
+				}
+				rightsOK = all
+			}
+			if g := implFor("META-INF/encryption.xml"); g != nil && g.Blocks != nil {
+				var h2 *ssa.Call
+				for _, ci := range eng.CallsNamed(g, false, "epubdoc.hasEncryptedContent") {
+					h2, _ = ci.(*ssa.Call)
+				}
+				if h2 != nil {
+					var errv, encv ssa.Value
+					for _, rr := range *h2.Referrers() {
+						if ex, ok := rr.(*ssa.Extract); ok {
+							if ex.Index == 1 {
+								errv = ex
+							} else {
+								encv = ex
+							}
+						}
+					}
+					for _, gr := range eng.Returns(g) {
+						res := gr.Results[0]
+						if k, ok := res.(*ssa.Const); ok && k.Value != nil && k.Value.ExactString() == "true" {
+							if eng.GuardedBy(g, gr.Block(), func(f eng.Fact) bool {
+								op, x, y, ok := f.Cmp()
+								return ok && errv != nil && op == token.NEQ && ((x == errv && eng.IsNilConst(y)) || (y == errv && eng.IsNilConst(x)))
+							}) {
+								parseErrOK = true
+							}
+						}
+						if res == encv {
+							encOK = true
+						}
+						if ph, ok := res.(*ssa.Phi); ok {
+							for _, e := range ph.Edges {
+								if e == encv {
+									encOK = true
+								}
+							}
+						}
+					}
+				}
+			}
+		}
+	}
 	c.Check(rightsOK, R, "epubdoc.checkForDRM#rights", drm.Pos(), "rights.xml is refused", "META-INF/rights.xml no longer leads to ErrDRMProtected")
 	c.Check(parseErrOK, R, "epubdoc.checkForDRM#unparsable", drm.Pos(), "unparsable encryption.xml is refused", "an unparsable encryption.xml is no longer treated as DRM")
 	c.Check(encOK, R, "epubdoc.checkForDRM#encrypted", drm.Pos(), "encrypted content is refused", "encryption metadata covering content no longer leads to ErrDRMProtected")
